@@ -585,8 +585,8 @@ func unionKeys(ms ...map[string]*big.Int) map[string]bool {
 // mustSucceedRules: the two success predictions the properties state.
 func (e *vestEnv) mustSucceedRules(c *fw.Case, o *txOutcome) {
 	op := o.op
-	if o.pre.Accounts[op.signer.Bech()] == "" {
-		return
+	if o.pre.Accounts[op.signer.Bech()] == "" || op.gas > 0 {
+		return // (a tight gas limit is a legitimate reason to fail)
 	}
 	// the fee must have been affordable
 	switch op.kind {
